@@ -25,3 +25,48 @@ PROPS = {
                         'allocation freedom is measured with pre-boxed arguments and a non-allocating writer'],
     },
 }
+
+PMM_ASSUME = ['the memory map is delivered as a real multiboot2 block (memory-map tag); C10 decides that the block is decoded correctly',
+              'vmm.EarlyReserveRegion / vmm.Map are replaced through the package seams by host memory and a recorder',
+              'frames consumed by the early allocator during Init are learnt from the frames passed to the map seam']
+
+PROPS['C01'] = {
+    'pkg': K + '/mm/pmm',
+    'tests': [{'name': 'TestVerifC01', 'checks_quick': 40000, 'checks_thorough': 200000}],
+    'rule': 'rapid generates a sorted non-overlapping memory map (1-8 regions, aligned or not, word-boundary frame counts, '
+            'all region types), a kernel placement with page-aligned start inside one available region, and an '
+            'alloc/free/drain/free-all history; pmm.Init runs on the real multiboot block and every frame returned by '
+            'mm.AllocFrame is checked against a set model (inside available RAM, not kernel, not early-consumed, not held). '
+            'Non-trivial = Init succeeded and (>=2 pools or a kernel inside a pool or a free followed by re-allocation of that '
+            'frame); distinct = hash of the JSON case.',
+    'technique': 'rapid model-based history testing against a set model of physical frames',
+    'level_text': 'Generated maps, kernel placements and alloc/free histories are executed against the real allocator and a set model; every returned frame is checked for membership and exclusivity after every step. Exploration of an infinite domain, aimed at bitmap word boundaries and unaligned regions.',
+    'level_note': 'Trusts the harness set model and the multiboot builder; early-consumed frames are taken from the map seam.',
+    'assumptions': PMM_ASSUME,
+}
+PROPS['C02'] = {
+    'pkg': K + '/mm/pmm',
+    'tests': [{'name': 'TestVerifC02', 'checks_quick': 60000, 'checks_thorough': 300000}],
+    'rule': 'memory maps and kernel placements as in C01 (incl. sub-page regions, kernel covering a region); n early '
+            'allocations up to exhaustion + 5. Oracle: each frame wholly inside available RAM, outside the kernel, strictly '
+            'ascending; nothing after out-of-memory; replay from reset state identical; real hand-over marks exactly kernel + '
+            'early frames. Non-trivial = >=2 available regions with a whole frame, >=2 allocations and a jump over the '
+            'kernel or into the next region.',
+    'technique': 'rapid generated maps vs. set-membership / monotonicity oracle and replay round-trip',
+    'level_text': 'Each generated map/kernel placement/allocation count is run through the real boot allocator; membership, strict monotonicity, out-of-memory stickiness, replay equality and the real hand-over into the bitmap allocator are asserted. Exploration.',
+    'level_note': 'Does not require that no usable frame is skipped (the statement does not promise it); skipped frames are reported as a statistic.',
+    'assumptions': PMM_ASSUME,
+}
+PROPS['C03'] = {
+    'pkg': K + '/mm/pmm',
+    'tests': [{'name': 'TestVerifC03', 'checks_quick': 40000, 'checks_thorough': 200000}],
+    'rule': 'as C01, with a pool of 1/63/64/65/128/129 frames forced into half of the cases and histories that also free '
+            'never-allocated, out-of-pool and twice-freed frames. Oracle: Init nil or (justified) out-of-memory, never a '
+            'panic; totals on the log line and in the allocator equal the model at every step; rejected frees change '
+            'nothing; draining yields exactly the usable set; a freed frame is exactly what comes back. Non-trivial = a '
+            'pool with size mod 64 in {0,1,63} that was fully drained, or >=1 rejected free.',
+    'technique': 'rapid model-based history testing: counters, error contract and exhaustive drain against a set model',
+    'level_text': 'Generated maps and histories; after every operation the reported totals must equal the model, every bad free must be rejected without state change, and a final drain must yield exactly the usable frames. Exploration aimed at bitmap word boundaries.',
+    'level_note': 'An out-of-memory report from Init is accepted only when the map cannot hold a generous upper bound of the allocator state.',
+    'assumptions': PMM_ASSUME + ['frees of kernel-image or early-consumed frames are not generated (unspecified)'],
+}
